@@ -23,8 +23,9 @@ import (
 type input struct {
 	Type  string `json:"type"`  // libtypes entry name ("" for harvested states)
 	Route int    `json:"route"` // 0 json, 1 port, 2 engine, 3 component
-	Mode  string `json:"mode"`  // rand | zero | empty | nil | badutf8 | harvest
+	Mode  string `json:"mode"`  // rand | zero | empty | nil | badutf8 | harvest | multi | shrink
 	Seed  uint64 `json:"seed"`
+	N     int    `json:"n,omitempty"` // multi / shrink: number of same-type messages in ONE port buffer
 	At    int    `json:"at,omitempty"`    // harvest: after this many engine events
 	Which int    `json:"which,omitempty"` // harvest: which component of the assembly
 }
@@ -164,32 +165,89 @@ func makeValue(e *libtypes.Entry, in input) reflect.Value {
 	return jm.Rand(r, e.Type, jm.Opts{MaxLen: 2 + int(in.Seed%3)})
 }
 
+
 type recorder struct{ got []timing.Event }
 
 func (h *recorder) Handle(e timing.Event) error { h.got = append(h.got, e); return nil }
 
-// viaPort puts the message into the incoming buffer of a real port, checkpoints the
-// port, loads the checkpoint into a freshly built port and reads the message back.
-func viaPort(v reflect.Value) (reflect.Value, error) {
-	msg, ok := v.Interface().(messaging.Msg)
-	if !ok {
-		return reflect.Value{}, fmt.Errorf("not a message")
+// viaPort puts the messages, in order, into the incoming buffer of ONE real port,
+// checkpoints the port, loads the checkpoint into a freshly built port and reads all the
+// messages back (the whole buffer goes through a single EncodeSlice / DecodeSlice).
+func viaPort(vs []reflect.Value) ([]reflect.Value, error) {
+	a := messaging.NewPort(nil, 16, 16, "P")
+	for _, v := range vs {
+		msg, ok := v.Interface().(messaging.Msg)
+		if !ok {
+			return nil, fmt.Errorf("not a message")
+		}
+		a.Deliver(msg)
 	}
-	a := messaging.NewPort(nil, 4, 4, "P")
-	a.Deliver(msg)
 	var buf bytes.Buffer
 	if err := a.(checkpointable).SaveCheckpoint(&buf); err != nil {
-		return reflect.Value{}, err
+		return nil, err
 	}
-	b := messaging.NewPort(nil, 4, 4, "P")
+	b := messaging.NewPort(nil, 16, 16, "P")
 	if err := b.(checkpointable).LoadCheckpoint(&buf); err != nil {
-		return reflect.Value{}, err
+		return nil, err
 	}
-	out := b.PeekIncoming()
-	if out == nil {
-		return reflect.Value{}, fmt.Errorf("restored port is empty")
+	if b.NumIncoming() != len(vs) {
+		return nil, fmt.Errorf("restored port holds %d messages, saved %d", b.NumIncoming(), len(vs))
 	}
-	return jm.Addressable(reflect.ValueOf(out)), nil
+	var outs []reflect.Value
+	for range vs {
+		out := b.RetrieveIncoming()
+		if out == nil {
+			return nil, fmt.Errorf("restored port ran empty")
+		}
+		// the values are printed only after ALL of them were retrieved: messages restored
+		// from one buffer must not share storage
+		outs = append(outs, jm.Addressable(reflect.ValueOf(out)))
+	}
+	return outs, nil
+}
+
+// setSliceLens gives every slice that is not a byte slice, anywhere in v, exactly n fresh
+// random elements.
+func setSliceLens(r *hx.Rand, v reflect.Value, n int) {
+	switch v.Kind() {
+	case reflect.Slice:
+		if v.Type().Elem().Kind() == reflect.Uint8 {
+			return
+		}
+		s := reflect.MakeSlice(v.Type(), n, n)
+		for i := 0; i < n; i++ {
+			jm.Fill(r, s.Index(i), jm.Opts{MaxLen: 1})
+		}
+		v.Set(s)
+	case reflect.Struct:
+		for i := 0; i < v.NumField(); i++ {
+			if jm.ParseField(v.Type().Field(i)).Skip || !v.Field(i).CanSet() {
+				continue
+			}
+			setSliceLens(r, v.Field(i), n)
+		}
+	}
+}
+
+// makeRest builds the further same-type messages that share the buffer with the first one.
+func makeRest(e *libtypes.Entry, in input, first reflect.Value) []reflect.Value {
+	if in.N <= 1 || (in.Mode != "multi" && in.Mode != "shrink") {
+		return nil
+	}
+	r := hx.NewRand(in.Seed ^ 0x5bd1e995)
+	if in.Mode == "shrink" {
+		setSliceLens(r, first, in.N)
+	}
+	var rest []reflect.Value
+	for i := 1; i < in.N; i++ {
+		v := jm.Rand(r, e.Type, jm.Opts{MaxLen: 3})
+		if in.Mode == "shrink" {
+			// later messages carry shorter (never empty) slices than the earlier ones
+			setSliceLens(r, v, in.N-i)
+		}
+		rest = append(rest, v)
+	}
+	return rest
 }
 
 // viaEngine schedules the event in a real serial engine, checkpoints the engine, loads the
@@ -370,14 +428,23 @@ func run(raw json.RawMessage) (hx.Case, error) {
 			idx = i
 		}
 	}
+	rest := makeRest(e, in, v)
 	before := jm.ValueTerm(v)
+	restBefore := make([]string, len(rest))
+	for i, x := range rest {
+		restBefore[i] = jm.ValueTerm(x)
+	}
 	var out reflect.Value
+	var outs []reflect.Value
 	var doc []byte
 	var err error
 	panicked, msg := hx.Try(func() {
 		switch in.Route {
 		case 1:
-			out, err = viaPort(v)
+			outs, err = viaPort(append([]reflect.Value{v}, rest...))
+			if err == nil {
+				out = outs[0]
+			}
 		case 2:
 			out, err = viaEngine(v)
 		case 3:
@@ -391,6 +458,10 @@ func run(raw json.RawMessage) (hx.Case, error) {
 	}
 	o := obs{JSON: string(doc)}
 	dec, otag, ojson := "None", "[]", "None"
+	restAfter := make([]string, len(rest))
+	for i := range restAfter {
+		restAfter[i] = "None"
+	}
 	if err != nil {
 		o.Err = err.Error()
 	} else {
@@ -399,6 +470,13 @@ func run(raw json.RawMessage) (hx.Case, error) {
 		otag = hx.Str(tagOf(out.Type()))
 		o.Same = after == before
 		o.TypeOut = out.Type().String()
+		for i := range rest {
+			t := jm.ValueTerm(outs[i+1])
+			restAfter[i] = hx.Some(t)
+			if t != restBefore[i] || outs[i+1].Type() != e.Type {
+				o.Same = false
+			}
+		}
 	}
 	if doc != nil {
 		if jt, jerr := jm.JSONTerm(doc); jerr == nil {
@@ -407,7 +485,7 @@ func run(raw json.RawMessage) (hx.Case, error) {
 	}
 	c := hx.Case{Obs: o}
 	c.Coq = hx.App("mk_case", "true", hx.N(uint64(in.Route)), hx.Str(tagOf(e.Type)),
-		fmt.Sprintf("gt_%d", idx), before, ojson, dec, otag)
+		fmt.Sprintf("gt_%d", idx), before, hx.L(restBefore), ojson, dec, hx.L(restAfter), otag)
 	if hasInvalidUTF8(v) {
 		c.Known = "invalid_utf8_string"
 	}
@@ -447,6 +525,17 @@ func gen(r *hx.Rand, tier string) []json.RawMessage {
 			}
 			for i := 0; i < k; i++ {
 				add(input{Type: e.Name, Route: rt, Mode: "rand", Seed: r.U64()})
+			}
+		}
+		// several messages of ONE type in ONE port buffer (a buffer is one EncodeSlice /
+		// DecodeSlice): random ones, and ones whose slice fields get shorter message by message
+		if e.Kind == "msg" {
+			add(input{Type: e.Name, Route: 1, Mode: "multi", N: 2 + r.Intn(3), Seed: r.U64()})
+			add(input{Type: e.Name, Route: 1, Mode: "shrink", N: 3 + r.Intn(2), Seed: r.U64()})
+			if tier == "thorough" {
+				for i := 0; i < 6; i++ {
+					add(input{Type: e.Name, Route: 1, Mode: []string{"multi", "shrink"}[i%2], N: 2 + r.Intn(4), Seed: r.U64()})
+				}
 			}
 		}
 		// malformed stream: strings that are not valid UTF-8 (a small share)
@@ -495,7 +584,9 @@ func init() {
 			"State types): the zero value, a value with every slice/map empty-but-non-nil, one with every slice/map nil, and random values " +
 			"(nil/empty/non-empty slices and maps, extreme integers, multi-byte and control-character strings, random bytes) through " +
 			"json.Marshal/Unmarshal (the document itself is compared with the model) and through the real port checkpoint (messages), " +
-			"serial-engine checkpoint (events) and modeling.Component checkpoint (States); States HARVESTED from real workloads (random memasm " +
+			"serial-engine checkpoint (events) and modeling.Component checkpoint (States); for every message type also 2-5 messages of " +
+			"that type in ONE port buffer (random, and with slice fields shrinking message by message), read back only after all were " +
+			"restored; lruset.Set values reached by real NewSet/Visit/Evict/UpdateKey histories (incl. evicted-not-yet-visited ways); States HARVESTED from real workloads (random memasm " +
 			"assemblies agent -> [rob] -> caches -> ideal/banked/DRAM memory, State of a random component after a random number of engine " +
 			"events); a small malformed share with invalid UTF-8 strings. " +
 			"Non-trivial: the value is not the zero value of its type. Distinct = distinct input hash.",
